@@ -4,10 +4,12 @@
    moof box ++ mdat box, one Write call each); a crash image is  init ++ (first j bytes of the part region) ++ z zero
    bytes. The reader is `moof_loop` of Model/C28_SegRead.v, the model of the moof/mdat walk of
    segmentFMP4ReadDurationFromParts that the C28 correspondence run ties to the code. The moov payload is
-   universally quantified: every theorem holds in every state (absent, complete, torn) of the duration rewrite. *)
+   universally quantified: every theorem about the walk holds in every state (absent, complete, torn) of the duration
+   rewrite; what /list does with the header duration is the subject of the second block (C27_list_any_write_crash). *)
 From Coq Require Import List ZArith Bool.
 Require Import MTX.Lib.IntWrap MTX.Model.C24_MulDiv MTX.Model.C28_SegRead MTX.Proofs.C28_SegRead
-  MTX.Model.C27_Fmp4Rec MTX.Proofs.C27_Fmp4Rec MTX.Model.C27_Segmenter MTX.Proofs.C27_Segmenter MTX.Proofs.C27_SegLink.
+  MTX.Model.C27_Fmp4Rec MTX.Proofs.C27_Fmp4Rec MTX.Model.C27_Segmenter MTX.Proofs.C27_Segmenter MTX.Proofs.C27_SegLink
+  MTX.Model.C27_Rewrite MTX.Proofs.C27_Rewrite.
 Import ListNotations.
 Local Open Scope Z_scope.
 
@@ -67,6 +69,84 @@ Theorem C27_continuity : forall sid n legacy, 0 <= n -> n + 1 < 1844674407370955
   can_concat legacy (Some (sid, n)) (Some (sid, n + 1)) = true.
 Proof. exact continuity_all. Qed.
 Print Assumptions C27_continuity.
+
+(* ================================================================================================================
+   The duration rewrite at close, at the granularity of Write calls (Model/C27_Rewrite.v). `close_log` = the log of the
+   repaired code (fix in /repo: the mvhd payload is marshalled into a buffer and written with ONE Write call):
+   Write(init with DurationV0 = 0), one Write per part, one rewrite of the mvhd payload. `crash_state l k t z` = k calls
+   complete; the call in progress, if it appends, has t bytes on disk followed by z zero bytes; a rewrite call in
+   progress has not happened (what one write(2) leaves behind when the machine stops inside it is the file system's
+   business: listed assumption). `list_source` = parseSegment of /list: a header duration of 0 -> the parts are
+   scanned (moof_loop), otherwise the header is trusted. *)
+
+(* every crash point after the header write is a crash image of the model above with the header of writeInit
+   (duration 0), or the closed file *)
+Theorem C27_write_crash_states : forall ft hd a b rest ps d k t z, len hd = 8 -> (1 <= k)%nat ->
+  (exists j z', crash_state (close_log ft hd a b rest ps d) k t z = crash_image ft (moov_with hd a 0 b rest) ps j z')
+  \/ ((length ps + 2 <= k)%nat /\ crash_state (close_log ft hd a b rest ps d) k t z = final_file ft hd a b rest ps d).
+Proof. exact crash_state_repaired. Qed.
+Print Assumptions C27_write_crash_states.
+
+(* FULL STATEMENT for /list: at EVERY crash point (any number k >= 1 of complete calls, any tear t of an appending call,
+   any zero fill z) /list either scans the parts of a crash image and finds `expect_last` (the last complete part or the
+   one right after it: C27_loss_bound), or the segment is closed and the header carries the true duration truncated to a
+   millisecond (a closed segment shorter than 1 ms is scanned as well). There is no state in which a wrong non-zero
+   header duration hides complete parts. *)
+Theorem C27_list_any_write_crash : forall ft hd a b rest ps d k t z,
+  len hd = 8 -> Forall wf_part ps -> 0 <= d < 4294967296 * 1000000 -> (1 <= k)%nat ->
+  let s := crash_state (close_log ft hd a b rest ps d) k t z in
+  let il := len (init_bytes ft (moov_with hd a 0 b rest)) in
+  wf_bytes s = true ->
+  (exists j z', s = crash_image ft (moov_with hd a 0 b rest) ps j z' /\
+                list_source s (rewrite_off ft + len a) il = FromParts (Ok (expect_last ps il j (-1))))
+  \/ ((length ps + 2 <= k)%nat /\ s = final_file ft hd a b rest ps d /\
+      list_source s (rewrite_off ft + len a) il =
+        if d <? 1000000 then FromParts (Ok (expect_last ps il (len (parts_bytes ps)) (-1)))
+        else FromHeader (d / 1000000 * 1000000)).
+Proof. exact list_any_write_crash. Qed.
+Print Assumptions C27_list_any_write_crash.
+
+(* The PINNED code (before the fix) wrote the mvhd payload with one Write call per byte (`close_log_pinned`; observed by
+   strace: 100 one-byte write(2) calls). After the appends and k of these calls the file is the complete file with the
+   first k bytes of the payload new and the others old ... *)
+Theorem C27_pinned_rewrite_prefix : forall ft hd a b rest ps d (k : nat), len hd = 8 ->
+  file_after (firstn (S (length ps) + k) (close_log_pinned ft hd a b rest ps d))
+  = overwrite (init_bytes ft (moov_with hd a 0 b rest) ++ parts_bytes ps) (rewrite_off ft)
+              (firstn k (mvhd_pl a (duration_field d) b) ++ skipn k (mvhd_pl a 0 b)).
+Proof. exact pinned_state. Qed.
+Print Assumptions C27_pinned_rewrite_prefix.
+
+(* ... so with i of the 4 bytes of DurationV0 written the header holds the first i bytes of the final value followed by
+   zero bytes: for i = 1, 2, 3 a value that is in general neither 0 nor final *)
+Theorem C27_pinned_torn_field : forall ft hd a b rest ps d (i : nat), len hd = 8 -> (i <= 4)%nat ->
+  field_at (file_after (firstn (S (length ps) + (length a + i)) (close_log_pinned ft hd a b rest ps d)))
+           (rewrite_off ft + len a)
+  = torn_field 0 (duration_field d) i.
+Proof. exact pinned_torn_field. Qed.
+Print Assumptions C27_pinned_torn_field.
+
+(* REFUTED for the pinned log: under the hypotheses of C27_list_any_write_crash there is a crash point between two Write
+   calls (a 1000 ms segment, 00 00 03 E8, stopped after the third byte: 00 00 03 00 = 768 ms) at which every part is on
+   disk, complete, and /list trusts a non-zero header duration below the true one: the complete parts behind it are not
+   reported. Replayed on the real code by the driver family CTorn (see design_notes/C27.md). *)
+Theorem C27_list_any_write_crash_pinned_refuted :
+  exists ft hd a b rest ps d k,
+    let s := crash_state (close_log_pinned ft hd a b rest ps d) k 0 0 in
+    let il := len (init_bytes ft (moov_with hd a 0 b rest)) in
+    len hd = 8 /\ Forall wf_part ps /\ 0 <= d < 4294967296 * 1000000 /\ (1 <= k)%nat /\ wf_bytes s = true /\
+    skipn (Z.to_nat il) s = parts_bytes ps /\
+    exists v, list_source s (rewrite_off ft + len a) il = FromHeader v /\ 0 < v < d / 1000000 * 1000000.
+Proof. exact torn_refuted_ex. Qed.
+Print Assumptions C27_list_any_write_crash_pinned_refuted.
+
+(* non-vacuity of C27_list_any_write_crash: the same segment with the repaired log, stopped before the rewrite (parts
+   scanned, last part found) and after it (header 1000 ms) *)
+Example C27_rewrite_example :
+  list_source (crash_state (close_log ex_ft ex_hd ex_a ex_b ex_rest ex_ps ex_d) 3 0 0) (rewrite_off ex_ft + len ex_a) 136
+  = FromParts (Ok 172) /\
+  list_source (crash_state (close_log ex_ft ex_hd ex_a ex_b ex_rest ex_ps ex_d) 4 0 0) (rewrite_off ex_ft + len ex_a) 136
+  = FromHeader 1000000000.
+Proof. exact example_rewrite. Qed.
 
 Example C27_walk_example :
   moof_loop (crash_image [1; 2; 3; 4] [5; 6; 7; 8] [ex_part 8 12; ex_part 8 16; ex_part 12 16] 85 5) 10 24 (-1) = Ok 60 /\
